@@ -13,6 +13,7 @@ import ClairModel.Proofs.RpmFiles
 import ClairModel.Proofs.DockerLex
 import ClairModel.Proofs.TarLinks
 import ClairModel.Gen.Tar
+import ClairModel.Gen.C06Guards
 
 namespace ClairModel.Props.C06
 open ClairModel
@@ -340,5 +341,21 @@ theorem ndb_blob_within_file (file : RpmDb.Bytes) (s : RpmDb.Ndb.Slot) (id : Nat
     (h : RpmDb.Ndb.getHeader file s id = some sec) :
     s.blkOffset * 16 + s.blkCount * 16 ≤ file.length ∧ sec.start = s.blkOffset * 16 + 16 ∧ sec.start ≤ file.length :=
   RpmDb.Ndb.getHeader_within file s id sec h
+
+/-! ## the repaired defects stay repaired (Tie A over the sources of today) -/
+
+/-- Every check a `fix:` commit of this property put into the repository is
+    still in the source, by its shape in the function it lives in (regenerated
+    on every run: Gen.C06Guards): the hop bounds and the size check of tarfs, the
+    finalizer order of `Layer.Init`, the restart condition of dpkg's
+    `parseStatus`, the length guards of the apk and os-release readers, the three
+    limits of java/jar, the concurrency default of `NewLayerScanner`, the close on
+    a failed ping of `sqlite.Open`, the clamped hint of ndb `Parse`, the slot-area
+    check of `XDB.Parse`, the cached "no database" answer of the rpm files cache,
+    the file-wide seen set of bdb, the bound on expanded Dockerfile values. The
+    witnesses of the defects are replayed by the harness as well; this obligation
+    fails as soon as a guard is edited away, whatever the generators draw. -/
+theorem fixed_defect_guards_present : Gen.C06Guards.all.all (·.2) = true := by
+  decide
 
 end ClairModel.Props.C06
